@@ -3,7 +3,8 @@
    that every write can be checked (the real capacities: tag[32]/val[2048] in extract_header,
    tag[2048]/val[2048] in decode and decode_group, len[32], mtype[32] in factory).
    Since /repo d48d8ce extract_element is bounded (a tag/value that does not fit = extraction
-   failure); extract_element_fixed_width is still unbounded and does not terminate the tag.
+   failure); since ce1e2cc extract_element_fixed_width is bounded too and terminates the tag
+   (the old functions are kept as *_orig).
    No proofs here.
 
    extract_element(const char *from, unsigned sz, char *tag, char *val)
@@ -86,8 +87,10 @@ Fixpoint xe_loop_orig (from : list N) (sz ii : N) (inval : bool) (tag val : list
 Definition extract_element_orig (from : list N) (sz : N) (tcap vcap : N) : xres :=
   xe_loop_orig from sz 0 false [] [] 0 0 tcap vcap.
 
-(* extract_element_fixed_width: the tag digits are copied WITHOUT a terminating NUL; the caller
-   then reads tag[] as a C string, i.e. the new digits followed by whatever the buffer held.
+(* extract_element_fixed_width since /repo ce1e2cc (buffers by array reference, TagSz = tcap,
+   ValSz = vcap): the digits stop at tcap-1 characters (break -> failure), val_sz > vcap-1 is a
+   failure, on success the tag is NUL-terminated before the value copy; every failure returns
+   "*val = *tag = 0" on the array starts (both C strings empty).
    Result on success: the digits written, the val_sz value bytes, bytes consumed. *)
 Fixpoint xfw_loop (from : list N) (sz ii val_sz : N) (tag : list N) (nt : N) (tcap vcap : N) : xres :=
   if ii <? sz then
@@ -95,7 +98,32 @@ Fixpoint xfw_loop (from : list N) (sz ii val_sz : N) (tag : list N) (nt : N) (tc
     | [] => XOOB site_read
     | c :: rest =>
       if is_digit c then
-        if nt <? tcap then xfw_loop rest sz (ii + 1) val_sz (c :: tag) (nt + 1) tcap vcap
+        if nt + 1 <? tcap then xfw_loop rest sz (ii + 1) val_sz (c :: tag) (nt + 1) tcap vcap
+        else XFail [] []                                                  (* tptr == tend: break *)
+      else
+        (* from[ii++] != '=' || val_sz > ValSz - 1 || sz < ii + val_sz -> break *)
+        if negb (c =? EQC) || negb (val_sz <? vcap) || (sz <? ii + 1 + val_sz) then XFail [] []
+        else if lenN (firstN val_sz rest) <? val_sz then XOOB site_read
+        else XOk (rev tag) (firstN val_sz rest) (ii + 1 + val_sz + 1)
+    end
+  else XFail [] [].
+
+Definition extract_element_fixed_width (from : list N) (sz val_sz : N) (tcap vcap : N) : xres :=
+  (* *val = *tag = 0 first *)
+  if (0 <? tcap) && (0 <? vcap) then xfw_loop from sz 0 val_sz [] 0 tcap vcap
+  else XOOB site_tag_write.
+
+(* ORIGINAL code (before /repo ce1e2cc), kept for refutation witnesses.
+   extract_element_fixed_width: the tag digits are copied WITHOUT a terminating NUL; the caller
+   then reads tag[] as a C string, i.e. the new digits followed by whatever the buffer held.
+   Result on success: the digits written, the val_sz value bytes, bytes consumed. *)
+Fixpoint xfw_loop_orig (from : list N) (sz ii val_sz : N) (tag : list N) (nt : N) (tcap vcap : N) : xres :=
+  if ii <? sz then
+    match from with
+    | [] => XOOB site_read
+    | c :: rest =>
+      if is_digit c then
+        if nt <? tcap then xfw_loop_orig rest sz (ii + 1) val_sz (c :: tag) (nt + 1) tcap vcap
         else XOOB site_tag_write
       else
         (* from[ii++] != '=' || sz < ii + val_sz -> break -> return *val = *tag = 0 *)
@@ -106,16 +134,18 @@ Fixpoint xfw_loop (from : list N) (sz ii val_sz : N) (tag : list N) (nt : N) (tc
     end
   else zero_write nt 0 tcap vcap (XFail (rev tag) []).
 
-Definition extract_element_fixed_width (from : list N) (sz val_sz : N) (tcap vcap : N) : xres :=
+Definition extract_element_fixed_width_orig (from : list N) (sz val_sz : N) (tcap vcap : N) : xres :=
   (* *val = *tag = 0 first *)
-  if (0 <? tcap) && (0 <? vcap) then xfw_loop from sz 0 val_sz [] 0 tcap vcap
+  if (0 <? tcap) && (0 <? vcap) then xfw_loop_orig from sz 0 val_sz [] 0 tcap vcap
   else XOOB site_tag_write.
 
 (* The tag buffer of MessageBase::decode as "bytes written so far" (a prefix of tag[]).
    After extract_element wrote digits d and a NUL: *)
 Definition tagbuf_after (d : list N) (tb : list N) : list N := d ++ 0 :: skipN (lenN d + 1) tb.
-(* After extract_element_fixed_width: tag[0] = 0, then the digits over it, no NUL *)
-Definition tagbuf_after_fw (d : list N) (tb : list N) : list N :=
+(* After extract_element_fixed_width (since ce1e2cc the tag is terminated): like tagbuf_after *)
+Definition tagbuf_after_fw (d : list N) (tb : list N) : list N := d ++ 0 :: skipN (lenN d + 1) tb.
+(* ORIGINAL (before ce1e2cc): tag[0] = 0, then the digits over it, no NUL -- stale digits stay *)
+Definition tagbuf_after_fw_orig (d : list N) (tb : list N) : list N :=
   match d with
   | [] => 0 :: skipN 1 tb
   | _ => d ++ skipN (lenN d) tb
